@@ -1887,7 +1887,9 @@ impl<'bump, T: 'bump + Copy> Vec<'bump, T> {
     pub fn extend_from_slices_copy(&mut self, slices: &[&[T]]) {
         // Reserve the total amount of capacity we'll need to safely append the aggregated contents
         // of each slice in `slices`.
-        let capacity_to_reserve: usize = slices.iter().map(|slice| slice.len()).sum();
+        let capacity_to_reserve: usize = slices.iter().fold(0, |total, slice| {
+            total.checked_add(slice.len()).expect("capacity overflow")
+        });
         self.reserve(capacity_to_reserve);
 
         // SAFETY:
